@@ -361,7 +361,8 @@ func (pr *printer) node(id, lvl int, x bool) bool {
 		pr.node(n.Kids[0], 0, x)
 		pr.sb.WriteString(")")
 	case "bal":
-		pr.sb.WriteString("(?<" + n.Nm + ">")
+		// (?<cap-uncap>..): Nm = the group that receives the interval ("" = none), Cls = the group whose last capture is popped
+		pr.sb.WriteString("(?<" + n.Nm + "-" + n.Cls + ">")
 		pr.node(n.Kids[0], 0, x)
 		pr.sb.WriteString(")")
 	case "look", "nlook", "lookb", "nlookb", "atom":
